@@ -51,6 +51,9 @@ pub(crate) struct Vec<T> {
 impl<T> Vec<T> {
     /// Constructs a new, empty `Vec<T>` with the specified capacity and matcher columns.
     pub fn with_capacity(capacity: u32, columns: u32) -> Vec<T> {
+        // verification hook: small geometry also clamps the eagerly allocated capacity
+        #[cfg(nucleo_verif_small)]
+        let capacity = capacity.min(2);
         assert_ne!(columns, 0, "there must be atleast one matcher column");
         let init = match capacity {
             0 => 0,
@@ -625,7 +628,10 @@ struct Location {
 
 // skip the shorter buckets to avoid unnecessary allocations.
 // this also reduces the maximum capacity of a vector.
+#[cfg(not(nucleo_verif_small))]
 const SKIP: u32 = 32;
+#[cfg(nucleo_verif_small)]
+const SKIP: u32 = 2;
 const SKIP_BUCKET: u32 = (u32::BITS - SKIP.leading_zeros()) - 1;
 
 impl Location {
@@ -782,5 +788,28 @@ mod tests {
         let count = MAX_ENTRIES as usize + 2;
         let iter = std::iter::repeat(0).take(count);
         assert!(std::panic::catch_unwind(|| vec.extend(iter, |_, _| {})).is_err());
+    }
+}
+
+// verification hook: gives the in-crate harnesses access to the private index arithmetic
+#[cfg(nucleo_verif)]
+pub(crate) mod verif_access {
+    pub(crate) const BUCKETS: u32 = super::BUCKETS;
+    pub(crate) const MAX_ENTRIES: u32 = super::MAX_ENTRIES;
+    pub(crate) const SKIP: u32 = super::SKIP;
+    /// (bucket, bucket_len, entry) of `index`
+    pub(crate) fn location(index: u32) -> (u32, u32, u32) {
+        let l = super::Location::of(index);
+        (l.bucket, l.bucket_len, l.entry)
+    }
+    pub(crate) fn bucket_len(bucket: u32) -> u32 {
+        super::Location::bucket_len(bucket)
+    }
+    /// is bucket `b` of `v` allocated?
+    pub(crate) fn bucket_allocated<T>(v: &super::Vec<T>, b: usize) -> bool {
+        !v.buckets[b]
+            .entries
+            .load(std::sync::atomic::Ordering::Relaxed)
+            .is_null()
     }
 }
